@@ -25,7 +25,17 @@ P = {'id': 'C17',
               'virtual_read_supplies_nothing',
               'virtual_pages_stay_empty',
               'cached_store_is_inner_store',
-              'shared_cache_reads_stay_fresh'],
+              'shared_cache_reads_stay_fresh',
+              'routed_per_shard',
+              'rr_per_shard',
+              'rr_shard_is_lru',
+              'rr_one_shard_is_lru',
+              'rr_get_after_put_refuted',
+              'ta_per_shard',
+              'ta_shard_is_lru',
+              'ta_one_thread_is_lru',
+              'ta_cross_thread_get_refuted',
+              'hash_routing_is_routed'],
  'trusted': ['modelled (M+S): src/containers/specialized/lru_map.rs (LruList insert_head/remove/move_to_head, LruMap get/put/remove/contains_key/len/clear/evict_lru/allocate_node), '
              'src/containers/specialized/concurrent_lru_map.rs (Hash routing with the hash as a parameter, per-shard dispatch, clear, len), src/cache/basic_cache.rs (LruPageCache read with the file-size clamp and the page loop, '
              'get_page with invalidation tracker and eviction, prefetch, invalidate_page/range, in-place overwrite of the file + invalidate_range) with FileManager::read_page of src/cache/mod.rs as "the bytes of the page that exist in the file", '
